@@ -86,9 +86,15 @@ class Ctx:
         if key is not None and nontrivial:
             self.nontrivial.add(key if isinstance(key, (str, int, tuple)) else json.dumps(key, sort_keys=True))
 
-    def sample(self, s, cap=6):
+    def sample(self, s, cap=6, good=True):
+        """keep up to `cap` written-out cases, preferring non-trivial ones"""
         if len(self.samples) < cap:
             self.samples.append(s)
+            self._sample_good = getattr(self, "_sample_good", []) + [good]
+        elif good and not all(getattr(self, "_sample_good", [True])):
+            i = self._sample_good.index(False)
+            self.samples[i] = s
+            self._sample_good[i] = True
 
     def ok_trace(self, n=1):
         self.traces_ok += n
